@@ -13,6 +13,9 @@
 //	keyless_addresses_not_queued  keyToManaged queues a public-only address for derivation on
 //	                              unlock only when its account has an encrypted private key
 //
+//	change_rejects_empty_private  ChangePassphrase returns an error for an empty new PRIVATE
+//	                              passphrase (as Create does) before anything else happens
+//
 //	usage: extract-c05 <repo>
 //
 // Everything is syntactic.  Shapes the program does not understand make it
@@ -39,6 +42,7 @@ type result struct {
 	LockWipesLast bool              `json:"lock_wipes_last_addrs"`
 	UnlockSkips   bool              `json:"unlock_skips_keyless_accounts"`
 	KeylessNotQ   bool              `json:"keyless_addresses_not_queued"`
+	RejectsEmpty  bool              `json:"change_rejects_empty_private"`
 	Why           map[string]string `json:"why"`
 	LockCaseTypes []string          `json:"lock_case_types"`
 }
@@ -577,6 +581,66 @@ func keylessNotQueued(m method) (bool, string) {
 	return *res, why
 }
 
+// ---- F7 -------------------------------------------------------------------
+
+func changeRejectsEmpty(m method) (bool, string) {
+	r := m.recvName
+	var names []string
+	for _, p := range m.decl.Type.Params.List {
+		for _, n := range p.Names {
+			names = append(names, n.Name)
+		}
+	}
+	if len(names) != 5 {
+		die("ChangePassphrase: expected 5 parameters, found %d", len(names))
+	}
+	newPass, private := names[2], names[3]
+	derive := -1
+	for i, st := range m.decl.Body.List {
+		if mentionsCallName(st, "DeriveKey") {
+			derive = i
+			break
+		}
+	}
+	if derive < 0 {
+		die("ChangePassphrase: no DeriveKey call at statement level; unknown shape")
+	}
+	watchSeen, found := false, false
+	for _, st := range m.decl.Body.List[:derive] {
+		is, ok := st.(*ast.IfStmt)
+		if !ok {
+			continue
+		}
+		c := str(is.Cond)
+		switch c {
+		case private + " && " + r + ".WatchOnly()":
+			if !returnsError(is.Body) {
+				die("ChangePassphrase: the watching-only guard does not return an error")
+			}
+			watchSeen = true
+		case private + " && len(" + newPass + ") == 0":
+			if !returnsError(is.Body) || is.Else != nil {
+				die("ChangePassphrase: `if %s` does not end in `return <error>`", c)
+			}
+			if !watchSeen {
+				die("ChangePassphrase: the empty-passphrase guard precedes the watching-only guard; the model orders them the other way")
+			}
+			found = true
+		default:
+			if strings.Contains(c, "len("+newPass+")") {
+				die("ChangePassphrase: guard `if %s` on the new passphrase is not understood", c)
+			}
+		}
+	}
+	if !watchSeen {
+		die("ChangePassphrase: guard `if %s && %s.WatchOnly()` not found before DeriveKey", private, r)
+	}
+	if found {
+		return true, "ChangePassphrase returns an error when " + private + " && len(" + newPass + ") == 0"
+	}
+	return false, "ChangePassphrase accepts an empty new private passphrase (Create does not)"
+}
+
 func main() {
 	if len(os.Args) != 2 {
 		die("usage: extract-c05 <repo>")
@@ -592,6 +656,7 @@ func main() {
 	res.Why["lock_wipes_last_addrs"] = w3
 	res.UnlockSkips, res.Why["unlock_skips_keyless_accounts"] = unlockSkips(one(ms, "Unlock", "Manager"))
 	res.KeylessNotQ, res.Why["keyless_addresses_not_queued"] = keylessNotQueued(one(ms, "keyToManaged", "ScopedKeyManager"))
+	res.RejectsEmpty, res.Why["change_rejects_empty_private"] = changeRejectsEmpty(one(ms, "ChangePassphrase", "Manager"))
 
 	b, err := json.MarshalIndent(res, "", " ")
 	if err != nil {
